@@ -297,7 +297,7 @@ def node_coq(n, jet_ids=None):
     if k in ("comp", "case", "pair"):
         return "(N%s %d %d)" % (k.capitalize(), n[1], n[2])
     if k == "disc":
-        return "(NDisconnect %d %s)" % (n[1], "None" if n[2] is None else "(Some %d)" % n[2])
+        return "(NDisconnect %d %s)" % (n[1], "None" if n[2] is None else "(Some %d%%nat)" % n[2])
     if k == "hid":
         return "(NHidden %s)" % hexlist(n[1])
     if k == "fail":
